@@ -79,22 +79,40 @@ func c16Apply(t Tree, ref *c16Ref, i int) {
 func c16CheckAll(t Tree, ref *c16Ref, store *vKV, tag string) {
 	zero := new(big.Int)
 	for _, key := range c16Keys {
-		ks := string(key)
-		want, ok := ref.vals[ks]
-		if !ok {
-			want = zero
-		}
-		vAssert(t.Get(key).BigIntMut().Cmp(want) == 0, tag+"Get")
-		vAssert(t.PrefixSum(key).BigIntMut().Cmp(ref.sum(func(k string) bool { return k <= ks })) == 0, tag+"PrefixSum")
-		l, e, r := t.SplitAcc(key)
-		vAssert(l.BigIntMut().Cmp(ref.sum(func(k string) bool { return k < ks })) == 0, tag+"SplitAcc:left")
-		vAssert(e.BigIntMut().Cmp(want) == 0, tag+"SplitAcc:exact")
-		vAssert(r.BigIntMut().Cmp(ref.sum(func(k string) bool { return k > ks })) == 0, tag+"SplitAcc:right")
-		vAssert(t.SubsetAccumulation(key, nil).BigIntMut().Cmp(ref.sum(func(k string) bool { return k >= ks })) == 0, tag+"Subset:from-key")
+		key := key
+		// each query is checked in its own scope so that a query that forks (only possible if the implementation
+		// branches on amounts) does not multiply the paths of the following ones
+		vScope(func() {
+			ks := string(key)
+			want, ok := ref.vals[ks]
+			if !ok {
+				want = zero
+			}
+			vAssert(t.Get(key).BigIntMut().Cmp(want) == 0, tag+"Get")
+			vAssert(t.PrefixSum(key).BigIntMut().Cmp(ref.sum(func(k string) bool { return k <= ks })) == 0, tag+"PrefixSum")
+		})
+		vScope(func() {
+			ks := string(key)
+			want, ok := ref.vals[ks]
+			if !ok {
+				want = zero
+			}
+			l, e, r := t.SplitAcc(key)
+			vAssert(l.BigIntMut().Cmp(ref.sum(func(k string) bool { return k < ks })) == 0, tag+"SplitAcc:left")
+			vAssert(e.BigIntMut().Cmp(want) == 0, tag+"SplitAcc:exact")
+			vAssert(r.BigIntMut().Cmp(ref.sum(func(k string) bool { return k > ks })) == 0, tag+"SplitAcc:right")
+		})
+		vScope(func() {
+			ks := string(key)
+			vAssert(t.SubsetAccumulation(key, nil).BigIntMut().Cmp(ref.sum(func(k string) bool { return k >= ks })) == 0, tag+"Subset:from-key")
+		})
 		for _, key2 := range c16Keys {
-			k2 := string(key2)
-			if ks <= k2 {
-				vAssert(t.SubsetAccumulation(key, key2).BigIntMut().Cmp(ref.sum(func(k string) bool { return k >= ks && k <= k2 })) == 0, tag+"Subset:range")
+			key2 := key2
+			if string(key) <= string(key2) {
+				vScope(func() {
+					ks, k2 := string(key), string(key2)
+					vAssert(t.SubsetAccumulation(key, key2).BigIntMut().Cmp(ref.sum(func(k string) bool { return k >= ks && k <= k2 })) == 0, tag+"Subset:range")
+				})
 			}
 		}
 	}
